@@ -27,6 +27,8 @@ ARRAY_VALUES = {
     "tangent_vector": {"frac": [[1.5, 0.5, 1.0], [0.5, 1.5, 0.0]], "int": [[3, 2, 2], [2, 3, 0]]},
     "segment": {"frac": [[1.5, 0.5, 1.0], [1.0, 0.0, 0.25]], "int": [[3, 2, 2], [2, 0, 1]]},
     "polygon": {"frac": [[1.0, 0.5, 0.0], [1.0, 0.0, 0.5], [1.0, -0.5, -0.25]], "int": [[2, 1, 0], [2, 0, 1], [3, -1, -1]]},
+    "ideal_from_angle_grid": {"frac": [[0.3, 1.1], [2.0, -0.7]], "int": [[0, 1], [2, 3]]},
+    "ideal_from_angle_vector": {"frac": [0.3, 1.1, 2.0], "int": [0, 1, 2]},
     "point_from_parts": {"frac": [1.5, 0.5, 1.0], "int": [3, 2, 2]},
     "transformation_from_parts": {"frac": [[2, 0.5, 0], [0, 1, 0], [0, 0, 1]], "int": [[2, 1, 0], [0, 1, 0], [0, 0, 1]]},
     "polygon_from_parts": {"frac": [[1.0, 0.5, 0.0], [1.0, 0.0, 0.5], [1.0, -0.5, -0.25]], "int": [[2, 1, 0], [2, 0, 1], [3, -1, -1]]},
@@ -116,6 +118,16 @@ def call(entry, x):
     if entry == "polygon":
         p = H.Polygon(x)
         return [p.coords("klein"), p.get_edges().proj_data]
+    if entry in ("ideal_from_angle_grid", "ideal_from_angle_vector"):
+        p = H.IdealPoint.from_angle(x)
+        th = np.asarray(x, dtype=float)
+        data = np.asarray(p.proj_data, float)
+        # unit by unit, what the scalar call gives
+        for idx in np.ndindex(th.shape):
+            one = np.asarray(H.IdealPoint.from_angle(float(th[idx])).proj_data, float)
+            if data.shape != th.shape + (3,) or not np.allclose(data[idx], one, atol=1e-12):
+                raise AssertionError("from_angle(array)%r = %r, from_angle(%r) = %r" % (idx, data[idx].tolist() if data.shape == th.shape + (3,) else data.shape, float(th[idx]), one.tolist()))
+        return [p.proj_data, p.coords("klein")]
     if entry == "point_from_parts":
         p = H.Point([H.Point(x), H.Point(np.array([1.25, 0.75, 0.5]))])
         return [p.proj_data, p.coords("klein")]
